@@ -23,6 +23,9 @@ pub enum Sel {
     Method(&'static str, &'static str),
     /// `impl From<Src> for Dst { fn from }`: (Dst, Src) — used by `?`
     From(&'static str, &'static str),
+    /// `impl Trait for Type { fn name }` of a trait WITHOUT generic arguments (`impl Default for T { fn default }`):
+    /// (Trait, Type, name) — translated like the inherent method `Type::name`
+    TraitFn(&'static str, &'static str, &'static str),
 }
 
 /// One selected item with its group (flat work list in emission order)
@@ -559,6 +562,19 @@ pub const GROUPS: &[(&str, &[(&str, &[Sel])])] = &[
                 Sel::Fn("encrypt_in_place_xnonce"),
             ],
         )],
+    ),
+    // renet: the library's DEFAULT configuration (`ConnectionConfig::default()`, built from `DefaultChannel::config()`).
+    // (last, so that the emission order — and with it the text — of every earlier group is unchanged; it refers to
+    // `ChannelConfig` / `SendType` / `ConnectionConfig` of group ConnTypes)
+    (
+        "Config",
+        &[
+            (
+                "renet/src/channel/mod.rs",
+                &[Sel::Enum("DefaultChannel"), Sel::From("u8", "DefaultChannel"), Sel::Method("DefaultChannel", "config")],
+            ),
+            ("renet/src/remote_connection.rs", &[Sel::TraitFn("Default", "ConnectionConfig", "default")]),
+        ],
     ),
 ];
 
